@@ -475,6 +475,66 @@ void run(bool use_alive) {
 
 }  // namespace kan
 
+// =====================================================================================
+//  stop_on_request(external token)
+// =====================================================================================
+namespace sor {
+
+struct World;
+
+struct Rcv {
+  World* w;
+  void set_value() && noexcept;
+  void set_done() && noexcept;
+  void set_error(std::exception_ptr) && noexcept;
+  friend unifex::inplace_stop_token tag_invoke(unifex::tag_t<unifex::get_stop_token>, const Rcv& r) noexcept;
+};
+
+using Sender = decltype(unifex::stop_on_request(std::declval<unifex::inplace_stop_token>()));
+using OpT = decltype(unifex::connect(std::declval<Sender>(), std::declval<Rcv>()));
+
+struct World {
+  unifex::inplace_stop_source src[2];   // 0 = the receiver's, 1 = the external one
+  alignas(64) unsigned char storage[256];
+  bool op_destroyed = false;
+  int completions = 0;
+
+  void complete(const char* kind) {
+    if (op_destroyed) rt::fail("receiver completed after the operation state was destroyed");
+    if (++completions > 1) { rt::fail("receiver completed twice"); return; }
+    rt::obs("rcv.%s", kind);
+    rt::point("in-completion");
+    reinterpret_cast<OpT*>(storage)->~OpT();
+    std::memset(storage, POISON, sizeof(OpT));
+    op_destroyed = true;
+  }
+  void start() {
+    static_assert(sizeof(OpT) <= sizeof(storage), "storage too small");
+    OpT* op = ::new (static_cast<void*>(storage)) OpT(unifex::connect(unifex::stop_on_request(src[1].get_token()), Rcv{this}));
+    rt::obs("start.begin");
+    unifex::start(*op);
+    rt::obs("start.end");
+  }
+  void stop(int i) {
+    rt::obs("stop.begin");
+    src[i].request_stop();
+    rt::obs("stop.end");
+  }
+  void finish() {
+    if (completions != 1) rt::fail("receiver completed %d times at quiescence", completions);
+    if (!all_poison(storage, sizeof(OpT))) rt::fail("operation state memory was written after its destruction");
+  }
+};
+
+void Rcv::set_value() && noexcept { World* ww = w; ww->complete("value"); }
+void Rcv::set_done() && noexcept { World* ww = w; ww->complete("done"); }
+void Rcv::set_error(std::exception_ptr) && noexcept { World* ww = w; ww->complete("error"); }
+unifex::inplace_stop_token tag_invoke(unifex::tag_t<unifex::get_stop_token>, const Rcv& r) noexcept {
+  return r.w->src[0].get_token();
+}
+
+}  // namespace sor
+
 }  // namespace
 
 // ---- tracked heap (see namespace heap) -------------------------------------------------------------
@@ -517,5 +577,22 @@ SCENARIO(d_sync)   { doc::run(true, false, false); }
 // ---- canary: T0 constructs, T1 = watcher's thread (alive / guard / ~watcher), T2 = ~canary ----------
 SCENARIO(k_guard) { kan::run(true); }
 SCENARIO(k_dtors) { kan::run(false); }
+
+// ---- stop_on_request: T0 connects+starts; stoppers on the receiver's (0) / the external (1) source ----
+SCENARIO(s_two) {
+  sor::World w;
+  int t1 = rt::spawn([&] { w.stop(0); });
+  int t2 = rt::spawn([&] { w.stop(1); });
+  w.start();
+  rt::join(t1); rt::join(t2);
+  w.finish();
+}
+SCENARIO(s_ext) {
+  sor::World w;
+  int t1 = rt::spawn([&] { w.stop(1); });
+  w.start();
+  rt::join(t1);
+  w.finish();
+}
 
 RT_MAIN()
